@@ -383,7 +383,13 @@ func rawLengthRule(p *core.Program, r *core.Result, fn *ssa.Function, minLen int
 			return false
 		}
 		_, isParam := c.Common().Args[0].(*ssa.Parameter)
-		return isParam
+		return isParam || normalisedOfParam(c.Common().Args[0], 0)
+	}
+	// the length of the normalised name (ToUpper / ReplaceAll of the parameter): a lower
+	// bound must not exceed the shortest listed name either; upper bounds are not judged
+	isNormLen := func(v ssa.Value) bool {
+		c, ok := v.(*ssa.Call)
+		return ok && len(c.Common().Args) == 1 && normalisedOfParam(c.Common().Args[0], 0)
 	}
 	rejects := func(b *ssa.BasicBlock) bool {
 		// the block (after optional jumps) returns the negative constant immediately
@@ -477,6 +483,9 @@ func rawLengthRule(p *core.Program, r *core.Result, fn *ssa.Function, minLen int
 						r.Fail(rule, core.QualName(fn), expr, p.Pos(iff.Pos()), fmt.Sprintf("the raw-length shortcut rejects names of length ≤ %d but the shortest listed name has %d characters", k, minLen))
 					}
 				default:
+					if isNormLen(bo.X) {
+						continue // an upper bound on the normalised length: not judged
+					}
 					r.Fail(rule, core.QualName(fn), expr, p.Pos(iff.Pos()), "a name is rejected because of an upper bound (or exact value) of its RAW length, measured before NUL bytes are stripped: inserting NULs inside a listed name changes the verdict")
 				}
 			}
@@ -857,4 +866,28 @@ func indexBuilderRule(p *core.Program, r *core.Result, builder *ssa.Function, t 
 	} else {
 		r.Fail(rule, core.QualName(builder), "index of "+tn+": entries filed", p.Pos(builder.Pos()), "the index builder files no table entry")
 	}
+}
+
+// normalisedOfParam: v is the parameter passed through strings.ToUpper / ToLower /
+// ReplaceAll (the normal form of a name), possibly via a φ of such values.
+func normalisedOfParam(v ssa.Value, depth int) bool {
+	if depth > 6 {
+		return false
+	}
+	switch x := v.(type) {
+	case *ssa.Call:
+		f := x.Common().StaticCallee()
+		if f == nil || f.Pkg == nil || f.Pkg.Pkg.Path() != "strings" {
+			return false
+		}
+		switch f.Name() {
+		case "ToUpper", "ToLower", "ReplaceAll":
+			a0 := x.Common().Args[0]
+			if _, isParam := a0.(*ssa.Parameter); isParam {
+				return true
+			}
+			return normalisedOfParam(a0, depth+1)
+		}
+	}
+	return false
 }
